@@ -121,3 +121,9 @@ fn to_integer_derive_trait(
         )),
     }
 }
+
+/// Verification hook (inert unless built with `--cfg nutype_verif`, which only /verif's mirror crate sets).
+#[cfg(nutype_verif)]
+pub(crate) fn verif_to_integer_derive_trait(tr: DeriveTrait, has_validation: bool, span: Span) -> Result<IntegerDeriveTrait, syn::Error> {
+    to_integer_derive_trait(tr, has_validation, span)
+}
